@@ -26,12 +26,14 @@ func init() {
 			"not judged (left open by the property): a failing optional slice/iterator (also on 'no value'); after an optional field/index yielded 'no value' the remaining segments are resolved against it: identity keeps it, non-optional segments fail, optional field/index keep it",
 			"strings are valid UTF-8; field names contain no quote, colon or backslash",
 		},
-		Shards:      shards(8, 16),
-		Run:         runC12,
-		MinEvals:    floor(100000, 3000000),
-		MinDistinct: floor(20000, 500000),
+		Shards:          shards(8, 16),
+		RaceShards:      shards(1, 2),
+		RaceIsViolation: true,
+		Run:             runC12,
+		MinEvals:        floor(100000, 3000000),
+		MinDistinct:     floor(20000, 500000),
 		RequiredCells: func(string) []string {
-			cells := []string{"reuse", "reuse/slice-or-negative", "matrix/kind-x-segment", "slice-table/list", "slice-table/bytes", "slice-table/string", "split/prefix-value", "split/prefix-error", "model/value", "model/no-value", "model/error", "model/unspecified", "field/empty-name", "iter/map-then-more", "iter/list-then-more"}
+			cells := []string{"purity/select/history", "purity/select/concurrent", "reuse", "reuse/slice-or-negative", "matrix/kind-x-segment", "slice-table/list", "slice-table/bytes", "slice-table/string", "split/prefix-value", "split/prefix-error", "model/value", "model/no-value", "model/error", "model/unspecified", "field/empty-name", "iter/map-then-more", "iter/list-then-more"}
 			for _, k := range []string{"identity", "field", "index", "slice", "iter"} {
 				for _, d := range []string{"map", "list", "bytes", "string", "int", "null"} {
 					cells = append(cells, "seg/"+k+"/on="+d)
@@ -413,6 +415,9 @@ func failShape(s ref.Sel, d ref.V) string {
 }
 
 func runC12(w *mon.W) {
+	if purityGate(w, c12Purity) {
+		return
+	}
 	c12Reuse(w)
 	r := w.Rng
 	// exhaustive slice table
